@@ -161,7 +161,7 @@ Section OneSample.
     one_sample matches rules bufs scope_id m gi g ad k s = Ok s' ->
     forall n, qs_get s' n = qs_get s n \/ qs_get s' n = step_of k n (qs_get s n).
   Proof.
-    unfold one_sample.
+    unfold one_sample, one_sample_gen.
     set (ops := real_cops scope_id gi (m_opcodes m) g ad ++ _).
     intros H.
     match type of H with bind ?m _ = _ => destruct m as [[sf updf]|] eqn:E end;
@@ -169,25 +169,10 @@ Section OneSample.
     inversion H; subst s'; clear H.
     assert (Hinv : inner_inv k s (sf, updf)).
     { assert (Hgen : forall ops st st', inner_inv k s st ->
-                foldM (fun st op =>
-                  let '(s0, updated) := st in
-                  match selected matches rules op with
-                  | None => Ok (s0, updated)
-                  | Some (a, c, o) =>
-                      a' <- algname_of a ;;
-                      if negb (is_op_registered (AK a') o) then Err ValueError else
-                      es <- collect_op bufs (sg_tensors g) op a' k ;;
-                      Ok (fold_left (fun st e =>
-                            let '(s1, upd) := st in
-                            if existsb (name_eqb2 (fst e)) upd then (s1, upd)
-                            else match qs_get s1 (fst e) with
-                                 | None => (qs_set s1 (fst e) (snd e), fst e :: upd)
-                                 | Some old => (qs_set s1 (fst e) (update old (snd e)), fst e :: upd)
-                                 end) es (s0, updated))
-                  end) ops st = Ok st' -> inner_inv k s st').
+                foldM (sample_step matches rules bufs g k) ops st = Ok st' -> inner_inv k s st').
       { induction ops0 as [|op ops0 IH]; intros st st' Hi Hf; cbn [foldM] in Hf.
         - inversion Hf; subst. assumption.
-        - destruct st as [s0 upd0].
+        - destruct st as [s0 upd0]. unfold sample_step at 1 in Hf.
           destruct (selected matches rules op) as [[[a c] o]|].
           + destruct (algname_of a) as [a'|]; cbn [bind] in Hf; [|discriminate].
             destruct (negb (is_op_registered (AK a') o)); [discriminate|].
